@@ -1,17 +1,18 @@
 \* C03 quick: pairs of complete versions [epoch:]upstream[-revision]: epoch absent/0/1/01,
-\* revision absent/0/~, upstream <= 2 characters over 0 1 ~ plus ':' and '-' where D2 allows
-\* them (292 versions, 85 264 pairs)
+\* revision absent/0/~, upstream <= 2 characters over 0 1 plus ':' and '-' where D2 allows
+\* them (186 versions, 34 596 pairs)
 CONSTANTS
   HashOnString = FALSE
   TildeOrderZero = FALSE
   Epochs <- E_few
   Revs <- R_three
-  UpChars = {48, 49, 126}
+  UpChars = {48, 49}
   MaxUp = 2
   Seps = TRUE
   Triples = FALSE
   EmitStride = 0
   EmitOffset = 0
+  CheckPos = FALSE
 SPECIFICATION Spec
 INVARIANT Agree
 INVARIANT SplitAgree
